@@ -2,6 +2,7 @@ package props
 
 import (
 	"fmt"
+	"math"
 	"strings"
 	"testing"
 
@@ -57,7 +58,20 @@ func genPair(t *rapid.T, cx *h.Ctx, disjointMembers bool, stats *gen.Stats) Pair
 		fam = "identical"
 	}
 	m := gen.DrawIntMap(t, -3, 2*kmax+3)
-	return PairCase{A: m.Apply(a), B: m.Apply(b), Family: fam}
+	pc := PairCase{A: m.Apply(a), B: m.Apply(b), Family: fam}
+	if rapid.IntRange(0, 4).Draw(t, "floatpair") == 0 {
+		// general-position float family: the same exact dyadic affine image of both operands
+		// (no rounding, so validity and incidences are preserved; ordinates become non-integral)
+		aff := [6]float64{
+			float64(rapid.IntRange(512, 2048).Draw(t, "fa")) / 1024, float64(rapid.IntRange(-400, 400).Draw(t, "fb")) / 1024, float64(rapid.IntRange(-8000, 8000).Draw(t, "ftx")) / 8,
+			float64(rapid.IntRange(-400, 400).Draw(t, "fc")) / 1024, float64(rapid.IntRange(512, 2048).Draw(t, "fd")) / 1024, float64(rapid.IntRange(-8000, 8000).Draw(t, "fty")) / 8}
+		sc := math.Ldexp(1, rapid.IntRange(-10, 10).Draw(t, "fscale"))
+		for i := range aff {
+			aff[i] *= sc
+		}
+		pc = PairCase{A: applyAff(a, aff), B: applyAff(b, aff), Family: fam + "+float"}
+	}
+	return pc
 }
 
 // genHolePair: A is an annulus-like polygon (square shell, large square hole,
